@@ -1,7 +1,101 @@
-//! C14 (to be filled in)
+//! C14 — FIFOs, sockets and character devices are recreated as identical nodes
+
 use super::*;
-pub fn run(_ctx: &Ctx) -> Report {
-    let mut r = Report::new("model_checking", "not implemented");
-    r.machinery_errors.push("C14 not implemented yet".into());
-    r
+use crate::explore::Judge;
+use crate::monitor;
+use crate::scen::{Entry, Kind};
+
+pub fn judge(w: &Worker, scen: &Scenario, ex: &Exec) -> Judgement {
+    let exp = model::expect(scen);
+    let mut v = vec![];
+    if let Some(why) = &exp.must_fail {
+        if exit0(ex) {
+            v.push(format!("exit 0 although {}", why));
+        }
+    }
+    v.extend(judge_exit0_tree(w, scen, ex, &exp, Level::Meta));
+    v.extend(model::untouched(&exp, &ex.before, &ex.snap));
+    v.extend(monitor::opened_or_read(&ex.res, &c07::special_sources(scen)));
+    v.truncate(8);
+    simple_judge(v, ex, exit0(ex))
+}
+
+pub fn scenarios(quick: bool) -> Vec<Scenario> {
+    let mut v = vec![];
+    let kinds: Vec<(&str, Kind)> = vec![("fifo", Kind::Fifo), ("sock", Kind::Socket), ("chr1_3", Kind::Chr(1, 3)), ("chr5_1", Kind::Chr(5, 1)), ("chr240_7", Kind::Chr(240, 7)), ("chr1_300", Kind::Chr(1, 300))];
+    for d in drivers() {
+        for (kn, k) in &kinds {
+            for mode in [0o600u32, 0o644, 0o666, 0o777] {
+                for umask in [0u32, 0o022, 0o077] {
+                    for pos in ["sole", "tree"] {
+                        for dest in ["fresh", "file", "fifo"] {
+                            for nc in [false, true] {
+                                if quick && nc && dest == "fresh" && mode != 0o644 {
+                                    continue;
+                                }
+                                let mut tree = vec![];
+                                let mut args: Vec<&str> = vec!["--driver", d, "-w", "2"];
+                                if nc {
+                                    args.push("-n");
+                                }
+                                if pos == "sole" {
+                                    tree.push(Entry::new("node", k.clone()).mode(mode));
+                                    match dest {
+                                        "file" => tree.push(Entry::file("out", "existing file").mtime(1_200_000_000, 1)),
+                                        "fifo" => tree.push(Entry::new("out", Kind::Fifo).mode(0o640)),
+                                        _ => {}
+                                    }
+                                    args.extend_from_slice(&["node", "out"]);
+                                } else {
+                                    tree.push(Entry::dir("src"));
+                                    tree.push(Entry::file("src/reg", "regular").mtime(1_300_000_000, 1));
+                                    tree.push(Entry::new("src/node", k.clone()).mode(mode));
+                                    if dest != "fresh" {
+                                        // several sources into an existing directory so that only the node collides
+                                        tree.push(Entry::dir("dst"));
+                                        match dest {
+                                            "file" => tree.push(Entry::file("dst/node", "existing file").mtime(1_200_000_000, 1)),
+                                            _ => tree.push(Entry::new("dst/node", Kind::Fifo).mode(0o640)),
+                                        }
+                                        args.extend_from_slice(&["src/reg", "src/node", "dst"]);
+                                    } else {
+                                        args.extend_from_slice(&["-r", "src", "dst"]);
+                                    }
+                                }
+                                let mut s = Scenario::new(&format!("node-{}-m{:o}-u{:o}-{}-{}-{}-{}", kn, mode, umask, pos, dest, if nc { "n" } else { "c" }, d), tree, &args);
+                                s.umask = umask;
+                                v.push(s);
+                            }
+                        }
+                    }
+                }
+            }
+        }
+        // block devices and a tree mixing all kinds
+        v.push(Scenario::new(&format!("node-blk-sole-{}", d), vec![Entry::new("b", Kind::Blk(7, 0))], &["--driver", d, "b", "out"]));
+        v.push(Scenario::new(&format!("node-blk-tree-{}", d), vec![Entry::dir("src"), Entry::file("src/a", "a"), Entry::new("src/b", Kind::Blk(7, 1))], &["-r", "--driver", d, "src", "dst"]));
+        let mut tree = vec![Entry::dir("src"), Entry::dir("src/sub")];
+        for (i, (kn, k)) in kinds.iter().enumerate() {
+            tree.push(Entry::new(&format!("src/{}", kn), k.clone()).mode(0o640 + i as u32));
+            tree.push(Entry::new(&format!("src/sub/{}", kn), k.clone()).mode(0o604));
+        }
+        tree.push(Entry::file("src/sub/reg", "regular"));
+        for w in ["1", "3"] {
+            v.push(Scenario::new(&format!("node-mixed-tree-{}-w{}", d, w), tree.clone(), &["-r", "--driver", d, "-w", w, "src", "dst"]));
+        }
+    }
+    v
+}
+
+pub fn run(ctx: &Ctx) -> Report {
+    let mut rep = Report::new(
+        "model_checking",
+        "node kind {fifo, socket, chr 1:3, 5:1, 240:7, 1:300} x mode {0600,0644,0666,0777} x umask {0,022,077} x position {sole source, inside a tree} x destination {fresh, existing file, existing fifo} x {-, -n} x both drivers, plus block devices and a tree mixing every kind; executed by the real binary (as root, mknod works in the sandbox); oracle: lstat of the result has the same S_IFMT and st_rdev and mode = source mode & ~umask, an existing entry is replaced unless -n (then untouched and exit != 0), block device => exit != 0, and the trace contains no open/read of the special source; non-trivial = exited 0, per distinct trace",
+    );
+    let j: Judge = &judge;
+    let sc = scenarios(ctx.quick());
+    let n = sc.len();
+    let st = scen_batch(ctx, sc, &[Policy::P0], j);
+    rep.part("node kinds x modes x umasks x positions x destinations", st, serde_json::json!({"scenarios": n}));
+    rep
 }
